@@ -5,9 +5,46 @@ from .pe import Ptr, unk
 VT = emit.VT
 
 
+def _leb(v, signed):
+    out = []
+    while True:
+        b_ = v & 0x7F
+        v >>= 7
+        done = (v == 0 and not b_ & 0x40) or (v == -1 and b_ & 0x40) if signed else v == 0
+        out.append(b_ | (0 if done else 0x80))
+        if done:
+            return out
+
+
+def encode(tokens):
+    """the bytes a WebAssembly binary holds for the scripted tokens (minimal LEB128) - for code that peeks at raw bytes"""
+    out = []
+    for t, v in tokens:
+        if not isinstance(v, int):
+            return None
+        if t == 'byte':
+            out.append(v & 0xFF)
+        elif t in ('u32', 'u64'):
+            out += _leb(v, False)
+        elif t == 'i32':
+            out += _leb(v - (1 << 32) if v >> 31 else v, True) if v >= 0 else _leb(v, True)
+        elif t == 'i64':
+            out += _leb(v - (1 << 64) if v >> 63 else v, True) if v >= 0 else _leb(v, True)
+        elif t == 'f32':
+            out += list((v & 0xFFFFFFFF).to_bytes(4, 'little'))
+        elif t == 'f64':
+            out += list((v & 0xFFFFFFFFFFFFFFFF).to_bytes(8, 'little'))
+        else:
+            return None
+    return out
+
+
 def buffer(tokens):
-    """a Buffer value whose contents are scripted decoder tokens"""
-    return {'data': Ptr([0], 0), 'length': len(tokens), '_tokens': tuple(tokens), '_pos': 0}
+    """a Buffer value whose contents are scripted decoder tokens; `data` / `length` hold the corresponding bytes of the binary"""
+    raw = encode(tokens)
+    if raw is None:
+        return {'data': Ptr([0], 0), 'length': len(tokens), '_tokens': tuple(tokens), '_pos': 0}
+    return {'data': Ptr(raw + [0], 0), 'length': len(raw), '_tokens': tuple(tokens), '_pos': 0}
 
 
 def i32_const(v):
